@@ -336,7 +336,7 @@ func runC15(p *engine.Prog, r *engine.Report) {
 			fed := false
 			for _, in := range allInstrs(translator) {
 				if call, ok := in.(*ssa.Call); ok && call.Call.StaticCallee() != nil && engine.InPkg(call.Call.StaticCallee(), pkgDisc) && len(call.Call.Args) > 0 {
-					if inner, ok := call.Call.Args[0].(*ssa.Call); ok && engine.CalleeIs(inner.Common(), "github.com/prometheus/prometheus/model/labels", "", "New") {
+					if inner, ok := call.Call.Args[0].(*ssa.Call); ok && (engine.CalleeIs(inner.Common(), "github.com/prometheus/prometheus/model/labels", "", "New") || engine.CalleeIs(inner.Common(), "github.com/prometheus/prometheus/model/labels", "", "FromMap")) {
 						if strings.Contains(fi.T(nt.Call.Args[0]).S, fi.T(call).S) {
 							fed = true
 						}
@@ -344,13 +344,13 @@ func runC15(p *engine.Prog, r *engine.Report) {
 				}
 			}
 			if !fed {
-				probs = append(probs, "the labels are not built through labels.New (sorted) before population")
+				probs = append(probs, "the labels are not built through labels.New or labels.FromMap (sorted) before population")
 			}
 			// nothing else: no Source / index / clock in the arguments
 			for _, a := range hashCall.Call.Args {
 				t := fi.T(a).S
 				for _, bad := range []string{".Source", "call time.", "phi:"} {
-					if strings.Contains(strings.ReplaceAll(t, "labels.New(phi:", "labels.New("), bad) {
+					if strings.Contains(strings.ReplaceAll(strings.ReplaceAll(t, "labels.New(phi:", "labels.New("), "labels.FromMap(phi:", "labels.FromMap("), bad) {
 						probs = append(probs, "a hash argument depends on "+bad)
 					}
 				}
